@@ -223,11 +223,12 @@ def texts(case, rain, et, level):
 
 def respell(v, k):
     """The same number written differently: as an integer when whole, with
-    a leading plus, in exponent notation, padded with blanks or with trailing
+    a leading plus, in exponent notation (e and E), padded with blanks or with trailing
     zeros - by turns"""
     from fractions import Fraction
     base = repr(float(v))
-    options = ['+' + base, base + '000', ' ' + base + ' ', '%.17e' % v]
+    options = ['+' + base, base + '000', ' ' + base + ' ', '%.17e' % v,
+               '%.10E' % v if float('%.10E' % v) == v else '%.17E' % v]
     if float(v).is_integer():
         options.append(str(int(v)))
     for text in options[k % len(options):] + options:
